@@ -716,7 +716,46 @@ def r10_9(ctx):
     ctx.floor(n, 2, "start() methods analysed")
 
 
-RULES = [r10_1, r10_2, r10_3, r10_4, r10_5, r10_6, r10_7, r10_8, r10_9]
+def r10_10(ctx):
+    ctx.rule("R10.10", "text pending in the redirected streams is emitted while the frame can still be redrawn under it: in Live.stop / Progress.stop every path to the final `console.line()` (which moves the cursor below the live region) first passes the release of the redirected streams (_disable_redirect_io, whose dropped FileProxy flushes its partial line through the still-installed hook) or an explicit flush of sys.stdout / sys.stderr; flushed afterwards, the partial line's erase sequence starts one row too low and leaves the top row of the old frame on screen")
+    n = 0
+    for spec in ("live:Live", "progress:Progress"):
+        cls = ctx.repo.cls(spec)
+        stop = cls.method("stop")
+        start = cls.method("start")
+        if stop is None or start is None:
+            raise AnchorVanished(f"{spec}.stop not found")
+        redirects = any(isinstance(c, ast.Call) and norm(c.func).endswith("_enable_redirect_io") for c in walk_local(start.node))
+        if not redirects:
+            continue
+        m = stop.module
+        g = cfgmod.build(stop.node)
+        flushers, lines = set(), []
+        for nd in g.stmt_nodes():
+            if nd.kind != "stmt" or nd.stmt is None or isinstance(nd.stmt, (ast.With, ast.Try, ast.If, ast.For, ast.While)):
+                continue
+            for c in ast.walk(nd.stmt):
+                if not isinstance(c, ast.Call):
+                    continue
+                fn_ = norm(c.func)
+                if _is_release(c, "_disable_redirect_io") or _helper_must_release(cls, c, "_disable_redirect_io") or fn_ in ("sys.stdout.flush", "sys.stderr.flush"):
+                    flushers.add(nd.id)
+                if fn_ == "self.console.line":
+                    lines.append(nd)
+        if not lines:
+            ctx.ok(stop.where, f"{spec}.stop emits no final new line", stop.fq)
+            n += 1
+            continue
+        for ln in lines:
+            n += 1
+            w = g.path(g.entry, {ln.id}, avoid=flushers)
+            ctx.check(w is None, stop.fq, short(ln.stmt), f"{m.relpath}:{ln.lineno}", "the redirected streams are released (pending text flushed) before the final new line",
+                      f"`{short(ln.stmt)}` can be reached in stop() before the redirected streams are released: text written with print(..., end='') inside the block is flushed only afterwards (when the FileProxy is dropped), its erase sequence then starts below the frame and the frame's first row stays on screen above the flushed text",
+                      g.describe_path(w) if w else None)
+    ctx.floor(n, 2, "stop() methods with a final new line")
+
+
+RULES = [r10_1, r10_2, r10_3, r10_4, r10_5, r10_6, r10_7, r10_8, r10_9, r10_10]
 
 
 def _xcheck(ctx):
